@@ -36,7 +36,8 @@ def dagger(A):
     return [[(A[j][i][0], -A[j][i][1]) for j in range(n)] for i in range(n)]
 
 
-def random_unitary(rng, n, nfac):
+def random_unitary(rng, n, nfac, real=False):
+    """exactly unitary G/d; with real=True a real orthogonal one (rotations of either sense, reflections, swaps)"""
     G, d = ident(n), 1
     for _ in range(nfac):
         kind = rng.choice(['givens', 'givens', 'phase', 'swap'])
@@ -44,7 +45,11 @@ def random_unitary(rng, n, nfac):
         if kind == 'givens' and n >= 2:
             p, q = rng.sample(range(n), 2)
             c, s, den = rng.choice([(3, 4, 5), (4, 3, 5), (5, 12, 13), (0, 1, 1), (12, 5, 13)])
-            ph = rng.choice([(1, 0), (0, 1), (1, 0)])
+            if real and rng.random() < 0.5:
+                s = -s
+            if real and rng.random() < 0.3:
+                c = -c
+            ph = (1, 0) if real else rng.choice([(1, 0), (0, 1), (1, 0)])
             F[p][p] = (c, 0)
             F[q][q] = (c, 0)
             F[p][q] = gmul((s, 0), ph)
@@ -53,7 +58,7 @@ def random_unitary(rng, n, nfac):
             F = [[F[i][j] if (i in (p, q) and j in (p, q)) else ((den, 0) if i == j else (0, 0)) for j in range(n)] for i in range(n)]
         elif kind == 'phase':
             p = rng.randrange(n)
-            num, den = rng.choice([((3, 4), 5), ((0, 1), 1), ((-1, 0), 1), ((4, -3), 5)])
+            num, den = ((-1, 0), 1) if real else rng.choice([((3, 4), 5), ((0, 1), 1), ((-1, 0), 1), ((4, -3), 5)])
             F = [[(den, 0) if i == j else (0, 0) for j in range(n)] for i in range(n)]
             F[p][p] = num
             d *= den
@@ -84,7 +89,7 @@ def gen_cases(rng, tier):
             na, nb = rng.randint(0, norb), rng.randint(0, norb)
             nn, sz = na + nb, na - nb
             if kind == 'restricted':
-                G, d = random_unitary(rng, norb, rng.randint(0, 4))
+                G, d = random_unitary(rng, norb, rng.randint(0, 4), real=rng.random() < 0.3)
             else:
                 Ga, da = random_unitary(rng, norb, rng.randint(0, 3))
                 Gb, db = random_unitary(rng, norb, rng.randint(0, 3))
@@ -99,6 +104,17 @@ def gen_cases(rng, tier):
         cases.append({'kind': 'rot', 'rkind': kind, 'norb': norb, 'mode': mode, 'n': nn, 'sz': sz,
                       'vec': fqeio.random_state(rng, norb, keys, density=0.8, amp=2),
                       'G': [[list(x) for x in row] for row in G], 'd': d})
+    # sectors with more than 450 strings of one spin (the column kernels work in windows of 450), sparse states
+    # (both spins occupied: the alpha kernel runs over windows of beta strings and vice versa)
+    shapes = [(15, 1, 3), (15, 3, 1), (31, 1, 2), (31, 2, 1), (12, 1, 4), (12, 4, 1)]
+    rng.shuffle(shapes)
+    for norb, na, nb in (shapes[:4] if tier == 'quick' else shapes + shapes):
+        G, d = random_unitary(rng, norb, rng.randint(2, 4))
+        keys = fqeio.sector_keys(norb, 'ns', na + nb, na - nb)
+        basis = fqeio.basis_of(norb, keys)
+        vec = [[a, b, rng.randint(-2, 2) or 1, rng.randint(-2, 2)] for a, b in rng.sample(basis, 12)]
+        cases.append({'kind': 'rot', 'rkind': 'restricted', 'norb': norb, 'mode': 'ns', 'n': na + nb, 'sz': na - nb,
+                      'vec': vec, 'G': [[list(x) for x in row] for row in G], 'd': d, 'big': True})
     return cases
 
 
